@@ -244,7 +244,8 @@ fn c07_remaining_size_too_small_u8() {
     remaining_size_too_small::<u8, 1>();
 }
 
-//@ prop=C07 tier=quick kind=hold
+//@ prop=C07 tier=thorough kind=hold
+//@ timeout=3600 mem=20
 //@ enc=DecreasePosition::try_new, DecreasePositionFlags::init, DecreasePosition::is_remaining_size_too_small, PositionExt::size_delta_in_tokens
 //@ bound=T=u16, DECIMALS=2: every position size (usd, tokens), collateral, side, size delta, flag combination and min position size
 //@ stubs=none; hook: DecreasePosition::verif_is_remaining_size_too_small (thin wrapper)
